@@ -21,35 +21,46 @@ INF = ("np.inf", "numpy.inf", "float('inf')", "math.inf", "np.Inf", "np.infty")
 
 def _idiom_a(fi, res: Result, R: str) -> None:
     pops = [c for c in astq.method_calls(fi.node, "pop")]
-    res.ob(R, len(pops) == 1 and norm(pops[0]) == "unassigned_edges.pop(0)", fi.qualname, "lowest-cost edge taken first",
-           "the next edge is not popped from the head of the sorted edge list", fi.where)
-    if len(pops) != 1:
+    ok = len(pops) == 1 and isinstance(pops[0].func.value, ast.Name) and len(pops[0].args) == 1 and astq.const_value(pops[0].args[0]) == 0
+    res.ob(R, ok, fi.qualname, "lowest-cost edge taken first", "the next edge is not popped from the head of the sorted edge list", fi.where)
+    if not ok:
         return
+    E = pops[0].func.value.id  # the edge list
+    param = fi.node.args.args[0].arg if fi.node.args.args else "cost_matrix"
     st = enclosing_stmt(pops[0])
     rc = [norm(e) for e in st.targets[0].elts] if isinstance(st, ast.Assign) and isinstance(st.targets[0], ast.Tuple) else []
     dels = [n for n in walk_function(fi.node) if isinstance(n, ast.Delete)]
     res.ob(R, len(dels) == 1 and len(rc) == 2, fi.qualname, "one removal statement", f"{len(dels)} del statements", fi.where)
     if len(dels) != 1 or len(rc) != 2:
         return
+    lp = astq.enclosing_loops(dels[0])
+    iv = norm(lp[0].target) if lp and isinstance(lp[0], ast.For) else "?"
     g = [a for a in ancestors(dels[0]) if isinstance(a, ast.If)]
     t = g[0].test if g else None
     ok = isinstance(t, ast.BoolOp) and isinstance(t.op, ast.Or) and len(t.values) == 2
     if ok:
-        parts = sorted(norm(v) for v in t.values)
-        ok = parts == sorted([f"unassigned_edges[i][0] == {rc[0]}", f"unassigned_edges[i][1] == {rc[1]}"])
+        def _eq(v):
+            if isinstance(v, ast.Compare) and len(v.ops) == 1 and isinstance(v.ops[0], ast.Eq):
+                return frozenset((norm(v.left), norm(v.comparators[0])))
+            return None
+        parts = {_eq(v) for v in t.values}
+        ok = parts == {frozenset((f"{E}[{iv}][0]", rc[0])), frozenset((f"{E}[{iv}][1]", rc[1]))}
+    ok = ok and norm(dels[0].targets[0]) == f"{E}[{iv}]"
     res.ob(R, ok, fi.qualname, "edges sharing the chosen row OR column are removed",
            f"after choosing ({', '.join(rc)}) edges are removed under `{short(t, 70) if t is not None else '?'}`: a row or a column can be assigned twice",
            f"{fi.module.relpath}:{dels[0].lineno}")
-    lp = astq.enclosing_loops(dels[0])
-    ok = bool(lp) and norm(lp[0].iter) == "range(len(unassigned_edges) - 1, -1, -1)"
+    it = norm(lp[0].iter) if lp and isinstance(lp[0], ast.For) else "?"
+    ok = it in (f"range(len({E}) - 1, -1, -1)", f"reversed(range(len({E})))")
     res.ob(R, ok, fi.qualname, "removal iterates backwards",
            f"removal iterates `{short(lp[0].iter, 50) if lp else '?'}`: deleting while iterating forwards skips edges", f"{fi.module.relpath}:{dels[0].lineno}")
-    srt = [c for c in walk_function(fi.node) if isinstance(c, ast.Call) and norm(c.func) == "np.argsort"]
-    ok = len(srt) == 1 and norm(srt[0].args[0]) == "cost_matrix" and any(k.arg == "axis" and norm(k.value) == "None" for k in srt[0].keywords)
+    srt = [c for c in walk_function(fi.node) if isinstance(c, ast.Call) and norm(c.func).split(".")[-1] == "argsort"]
+    ok = len(srt) == 1 and srt[0].args and norm(srt[0].args[0]) == param and any(k.arg == "axis" and norm(k.value) == "None" for k in srt[0].keywords) \
+        and not any(k.arg in ("descending",) for k in srt[0].keywords)
     res.ob(R, ok, fi.qualname, "edges sorted by ascending cost over the whole matrix", "edges are not sorted by ascending cost over the flattened matrix", fi.where)
     apps = {norm(c.func.value): norm(c.args[0]) for c in astq.method_calls(fi.node, "append")}
-    res.ob(R, apps.get("row_inds") == rc[0] and apps.get("col_inds") == rc[1], fi.qualname, "chosen row/col recorded in row_inds/col_inds",
-           f"row_inds/col_inds receive {apps}", fi.where)
+    rets = [n for n in walk_function(fi.node) if isinstance(n, ast.Return) and isinstance(n.value, ast.Tuple) and len(n.value.elts) == 2]
+    ok = bool(rets) and all(apps.get(norm(r.value.elts[0])) == rc[0] and apps.get(norm(r.value.elts[1])) == rc[1] for r in rets)
+    res.ob(R, ok, fi.qualname, "chosen row/col recorded and returned as (rows, cols)", f"row/col lists receive {apps}", fi.where)
 
 
 def _idiom_b(fi, res: Result, R: str, argmins) -> None:
